@@ -27,6 +27,7 @@ def load_kernels():
     path = os.path.join(src_dir(), "set_operations.pyx")
     src = open(path).read()
     code, lowered, types, directives = compile_lowered(src, path)
+    _cache["code_text"] = lowered
     ns = {"__name__": "catii.set_operations", "__c_coerce": K.c_coerce, "__sx_len": K.sx_len,
           "__sx_min": K.sx_min, "__sx_max": K.sx_max, "__sx_range": K.sx_range}
     from symex.lower_pyx import cimported_namespace
@@ -76,6 +77,23 @@ def elems_of(r):
     return list(r.e)
 
 
+def code_constants():
+    """Integer literals between 4 and 64 in the kernels' source (block sizes, unrolling factors, thresholds).
+    Operand lengths around them are explored in addition to the small exhaustive lengths: the bound on the
+    lengths is derived from the code, not chosen blindly."""
+    import ast
+    try:
+        load_kernels()
+        tree = ast.parse(_cache["code_text"])
+    except HarnessError:
+        return []
+    cs = set()
+    for node in ast.walk(tree):
+        if isinstance(node, ast.Constant) and isinstance(node.value, int) and not isinstance(node.value, bool) and 4 <= node.value <= 64:
+            cs.add(node.value)
+    return sorted(cs)
+
+
 def configs_for(tier, which):
     cap = 3 if tier == "quick" else 5
     kcap = 2 if tier == "quick" else 3
@@ -85,6 +103,12 @@ def configs_for(tier, which):
         for n in range(cap + 1):
             for m in range(cap + 1):
                 out.append(dict(kind="two", func=f, n=n, m=m))
+    for c in code_constants():
+        for f in TWO:
+            for n in ((c + 1, 2 * c + 1) if tier == "thorough" else (c + 1,)):
+                for m in (1, 2):
+                    out.append(dict(kind="two", func=f, n=n, m=m, derived_from_constant=c))
+                    out.append(dict(kind="two", func=f, n=m, m=n, derived_from_constant=c))
     wcap = 2 if tier == "quick" else 3
     for w in WRAP:
         for ln in [None] + list(range(wcap + 1)):
